@@ -813,6 +813,11 @@ impl CompactThetaSketch {
             MAX_THETA
         };
 
+        if num_entries_bytes > 4 {
+            return Err(Error::deserial(format!(
+                "corrupted: num_entries_bytes must be at most 4, got {num_entries_bytes}"
+            )));
+        }
         // unpack num_entries
         let mut num_entries = 0usize;
         for i in 0..num_entries_bytes {
